@@ -15,7 +15,7 @@ RULE = ("kinds: plain (random rows, arity 1-3, constructed with no mappings; obs
         "superset screen, then the screen under test from a random sub-list of its rows with the superset's own mappings: "
         "mappings strictly larger than the data, the train/test situation), shuffled (as reuse but the supplied mappings are "
         "hand-permuted, so stored order != sorted order), empty (0 rows — fresh empty mappings or supplied non-empty ones; arity 1-3 must "
-        "survive), nan_dose (NaN doses; "
+        "survive; plain screens whose 2-d treatment arrays are handed over column-major), nan_dose (NaN doses; "
         "implementation-side predicate only), each as a Screen "
         "or as ExperimentSpace.from_screen; 1-3 consecutive save_h5/load_h5 cycles through real h5py files. Names: '', "
         "non-ASCII incl. 3- and 4-byte UTF-8, unequal lengths, inner/trailing blanks; control name '', ASCII, non-ASCII; doses incl. "
@@ -139,6 +139,8 @@ def _build(d):
     d = _with_o(d)
     tn, td, sn, pn, _, mask = sl.arrays(d)
     obs = np.array([r["ob"] for r in d["rows"]], dtype=np.uint64).view(np.float64)
+    if d.get("layout") == "F":      # column-major 2-d arrays (what DataFrame.to_numpy() hands out): same values, other memory order
+        tn, td = np.asfortranarray(tn), np.asfortranarray(td)
     kw = dict(treatment_names=tn, treatment_doses=td, sample_names=sn, plate_names=pn, control_treatment_name=d["ctrl"])
     if d["obs_given"]:
         kw["observations"] = obs
@@ -372,6 +374,13 @@ def gen(rng, tier):
         rows[0]["t"][0][1] = float("nan")
         yield dict(kind="nan_dose", rows=rows, arity=a, ctrl=ctrl, obs_given=True, mask_given=True, sel=None, shuffle=None,
                    k=rng.choice([1, 2]), space=False)
+    for i in range(40 * N):  # the 2-d treatment arrays handed over in column-major memory order (pandas' to_numpy() layout)
+        ctrl = rng.choice(MYCTRLS)
+        rows, a = _rows(rng, n=rng.choice([2, 3, 4, 6, 8]), ctrl=ctrl)
+        while a < 2:
+            rows, a = _rows(rng, n=rng.choice([2, 3, 4, 6, 8]), ctrl=ctrl)
+        yield dict(kind="plain", rows=rows, arity=a, ctrl=ctrl, obs_given=True, mask_given=True, sel=None, shuffle=None,
+                   k=rng.choice([1, 2]), space=(i % 3 == 0), layout="F")
     for i in range(16 * N):  # screens without rows (constructible): fresh (empty) mappings / supplied non-empty mappings
         ctrl = rng.choice(MYCTRLS)
         rows, a = _rows(rng, n=[0, 2, 0, 3][i % 4], ctrl=ctrl)
@@ -384,7 +393,7 @@ def gen(rng, tier):
 
 
 def _features(desc, d_eff, n_rows, strict):
-    f = [desc["kind"], "arity%d" % desc["arity"], "cycles%d" % desc["k"]]
+    f = [desc["kind"], "arity%d" % desc["arity"], "cycles%d" % desc["k"]] + (["column_major_arrays"] if desc.get("layout") == "F" else [])
     rows = d_eff["rows"]
     if n_rows == 0:
         f.append("zero_rows")
